@@ -140,7 +140,7 @@ def rto_after_reassignment(c, iface, param, m=2, n=2):
     c.eq('after_reassigning_mean_and_noise:normal_equations_are_the_stationarity_of_the_targets_own_logd', s3.M(np.asarray(s3.b_tild) - np.asarray(s3.M(x, 1)), 2), g, tol=1e-4)
 
 
-def rto_documented_posterior(c, iface, param, side, m=4, n=3):
+def rto_documented_posterior(c, iface, param, side, m=4, n=3, form='dense'):
     """bounded stand-in (native): Gaussians given by DENSE matrices of size 3-4 on both sides of the sparse-storage switch; the
     sampler's normal equations are those of the posterior DOCUMENTED by the matrices the user passed (not merely of the target
     object's own log-density, which is built from the same internal square roots)"""
@@ -150,7 +150,13 @@ def rto_documented_posterior(c, iface, param, side, m=4, n=3):
         A = c.mat('A', m, n); y = c.vec('y', m); mu = c.vec('mu', n)
         Gn = c.lower('gn', m); Gp = c.lower('gp', n)
         Pn = np.asarray(Gn @ Gn.T + 0.2 * np.eye(m), dtype=float); Pp = np.asarray(Gp @ Gp.T + 0.2 * np.eye(n), dtype=float)   # precisions
+        if form != 'dense':          # diagonal MATRICES (dense or scipy-sparse storage) with unequal entries
+            Pn = np.diag(np.diag(Pn)); Pp = np.diag(np.diag(Pp))
         def arg(P):
+            if form != 'dense':
+                import scipy.sparse as _sp
+                d = np.diag(P); v = {'prec': d, 'cov': 1 / d, 'sqrtprec': np.sqrt(d), 'sqrtcov': 1 / np.sqrt(d)}[param]
+                return np.diag(v) if form == 'diag' else _sp.diags(v).tocsc()
             if param == 'prec': return P
             if param == 'cov': return np.linalg.inv(P)
             if param == 'sqrtprec': return np.linalg.cholesky(P).T          # R with R^T R = P
@@ -274,5 +280,12 @@ def jobs(tier):
             for side in ('below', 'above'):
                 J.append(Job(f'{tag}.LinearRTO:documented_posterior:dense_{param}:sparse_switch={side}', lambda c, i=iface, p=param, sd=side: rto_documented_posterior(c, i, p, sd), 'B',
                              ['cuqi.distribution._gaussian:get_sqrtprec_from_prec', 'cuqi.distribution._gaussian:get_sqrtprec_from_cov'], nnum=6 if q else 40))
+    for iface, tag in (('exp', 'experimental'), ('leg', 'legacy')):
+        for param in ('cov', 'prec', 'sqrtcov', 'sqrtprec'):
+            for form in ('diag', 'sparse_diag'):
+                for side in ('below', 'above'):
+                    J.append(Job(f'{tag}.LinearRTO:documented_posterior:{form}_matrix_{param}:sparse_switch={side}', lambda c, i=iface, p=param, sd=side, f=form: rto_documented_posterior(c, i, p, sd, 4, 3, f), 'B',
+                                 ['cuqi.distribution._gaussian:get_sqrtprec_from_prec', 'cuqi.distribution._gaussian:get_sqrtprec_from_cov', 'cuqi.distribution._gaussian:get_sqrtprec_from_sqrtcov',
+                                  'cuqi.distribution._gaussian:get_sqrtprec_from_sqrtprec'], nnum=4 if q else 20))
     J.append(Job('legacy.LinearRTO:five_tuple_form', five_tuple, 'Pbox', ['cuqi.sampler._rto:LinearRTO.__init__'], extra=_extra, rtol=1e-4))
     return J
